@@ -61,6 +61,7 @@ fn main() {
         "C19M" => multi::run_small(seed, tier, &mut out),
         "C01P" => pty::run(seed, tier, &mut out),
         "C03P" => pty::run_multi(seed, tier, &mut out),
+        "C19H" => pty::run_default_height(seed, tier, &mut out),
         "C01S" => race::run(seed, tier, &mut out, false),
         "C03S" => race::run(seed, tier, &mut out, true),
         "GIVEN" => multi::run_given(&mut out),
